@@ -27,6 +27,8 @@ type ParserData struct {
 	loopOpenBlocks []int // 每层循环开始时 openBlocks 的长度
 
 	// 主代码段每条指令写入时解析器所处的文本位置，用于清除回溯后遗留的指令
+	codeOverflow bool // 指令数超过上限(8192)，超出部分已被丢弃，必须报错而不能执行残缺的代码
+
 	getOffset func() int
 	codePos   []int
 	jmpPos    []int // jmpStack 各项入栈时解析器所处的文本位置
@@ -78,6 +80,7 @@ func (e *ParserData) checkStackOverflow() bool {
 			e.code = newCode
 		} else {
 			// e.Error = errors.New("E1:指令虚拟机栈溢出，请不要发送过长的指令")
+			e.codeOverflow = true
 			return true
 		}
 	}
